@@ -284,11 +284,24 @@ func (it *stkInterp) call(s *stkState, call *ast.CallExpr, assignTo types.Object
 		s.h = s.h.add(konst(k), 1)
 	case isMethodOf(fn, it.p.Types, "Compiler", "emit") && len(call.Args) >= 2:
 		co := ConstObj(it.p, call.Args[1])
-		if co == nil {
+		op := ""
+		if co != nil {
+			op = co.Name()
+		} else if vals := opcodeValuesOf(it.w, it.p, it.fd, call.Args[1]); len(vals) > 0 {
+			// an opcode chosen into a local: fine when every choice has the
+			// same effect and the same role (both short-circuit jumps, say)
+			op = vals[0]
+			for _, v := range vals[1:] {
+				sc := func(o string) bool { return o == "OpAndJump" || o == "OpOrJump" }
+				if !(sc(op) && sc(v)) && v != op {
+					op = ""
+				}
+			}
+		}
+		if op == "" {
 			it.unknown = append(it.unknown, it.w.Site(call)+": emit of a non-constant opcode")
 			return
 		}
-		op := co.Name()
 		eff, ok := stackEffect[op]
 		if !ok {
 			it.prob(call, "opcode %s has no entry in the stack-effect table", op)
